@@ -89,13 +89,10 @@ def check_update(ck, repo, nf, q, spec):
     ck.ob("R1-footprint", q, "single-write", len(writes) == 1, f"{len(writes)} `.at[...]` write(s)", "" if len(writes) == 1 else "an update must change exactly one table entry", where)
     tbl = call.func.value.value.value
     idx = call.func.value.slice
-    idx_names = tuple(dotted(e) for e in (idx.elts if isinstance(idx, ast.Tuple) else [idx]))
-    okt = dotted(tbl) == spec["table"] and idx_names == spec["idx"]
-    # the table / index variables must still be the parameters at the write (no redefinition)
-    for nm in (spec["table"],) + spec["idx"]:
-        ds = cfg.defs_of(at, nm)
-        if not (len(ds) == 1 and ds[0].kind == "param"):
-            okt = False
+    # canonical table and index at the write (locals / index tuples resolved through reaching definitions; a redefined parameter
+    # shows up as a different normal form)
+    idx_txt, _ = nf._slice(idx, sc, at, 0)
+    okt = nf.poly(tbl, sc, at).canon() == spec["table"] and idx_txt == ", ".join(spec["idx"])
     ck.ob("R1-footprint", q, "write-index", okt, f"`{short(call.func.value)}` written", "" if okt else f"the entry written is not {spec['table']}[{', '.join(spec['idx'])}] (the visited state-action entry of the updated table)", loc(mi, call))
     val = nf.poly(call.args[0], sc, at) if call.args else Poly({})
     read = nf.poly(parse_expr(f"{spec['table']}[{', '.join(spec['idx'])}]"), Scope(None, mi, env, q), None)
@@ -155,21 +152,55 @@ def _callers_coindex(ck, repo, nf):
                         if role in ("gamma", "learning_rate"):
                             ck.ob("R2-co-indexing", tq, f"arg:{role}", okr, f"{role} <- {short(a) if a is not None else None}", "" if okr else f"`{role}` receives a different quantity", loc(mi, c))
         ck.need(found, f"{tq}: update call not found")
-    # double Q-learning: both call sites pass (updated, other) tables, and assign the result to the updated one
+    # double Q-learning: per path through one iteration exactly one table changes, to _dql_update(.., <that table>, <the other>, ..),
+    # and each table is the updated one on some path (path evaluation: call sites may be merged, tables passed through locals)
+    from ..sympath import enumerate_paths, PathEval
+    from ..loops import find_env_loop
     tq, uq = A + "double_q_learning.train_double_q_learning", A + "double_q_learning._dql_update"
     fn = repo.func(tq)
     mi = fn._module
     ufn = repo.func(uq)
-    sites = 0
-    for n in ast.walk(fn):
-        if isinstance(n, ast.Assign) and isinstance(n.value, ast.Call) and isinstance(n.value.func, ast.Name) and repo.resolve_name(mi, n.value.func.id) == uq:
-            sites += 1
-            b = bind_call(ufn, n.value)
-            t1, t2 = dotted(b.get("q_table1")), dotted(b.get("q_table2"))
-            tgt = dotted(n.targets[0])
-            ok = tgt == t1 and t1 != t2 and {t1, t2} == {"q_table1", "q_table2"}
-            ck.ob("R2-co-indexing", tq, f"tables:{tgt}", ok, f"{tgt} = _dql_update(.., {t1}, {t2}, ..)", "" if ok else "the updated table must be the first table argument and the evaluation table the other one", loc(mi, n))
-    ck.ob("R2-co-indexing", tq, "two-call-sites", sites == 2, f"{sites} update call sites", "" if sites == 2 else "double Q-learning updates either table (two call sites)", loc(mi, fn))
+    up = positional_params(ufn)
+    ck.need(len(up) >= 3, f"{uq}: signature changed (anchor vanished)")
+    L = find_env_loop(repo, tq)
+    cfg = nf.cfg_of(fn)
+    hdr = cfg.stmt_node[id(cfg.nodes[L.outer_header].ast)] if hasattr(L, "outer_header") else None
+    ck.need(hdr is not None, f"{tq}: training loop not found")
+    T1, T2 = "q_table1", "q_table2"
+    ck.need(T1 in param_names(fn) and T2 in param_names(fn), f"{tq}: table parameters renamed (anchor vanished)")
+    env0 = {T1: Poly.atom("Q1", {"Q1"}, {"Q1"}), T2: Poly.atom("Q2", {"Q2"}, {"Q2"})}
+    nfp = NF(repo, inline_depth=1, inline_calls=False)
+    try:
+        paths = enumerate_paths(cfg, hdr, {hdr}, first_label=True, max_paths=5000)
+    except RuntimeError:
+        raise AnalysisError(f"{tq}: too many paths through one iteration")
+    updated, sigs = set(), set()
+    for pth in paths:
+        pe = PathEval(nfp, cfg, mi, tq, env0).run(pth[:-1])
+        v1, v2 = pe.env[T1].canon(), pe.env[T2].canon()
+        sig = (v1, v2)
+        if sig in sigs:
+            continue
+        sigs.add(sig)
+        ch1, ch2 = v1 != "Q1", v2 != "Q2"
+        where = loc(mi, fn)
+        if ch1 == ch2:
+            ck.ob("R2-co-indexing", tq, "one-table-per-step", False, f"q_table1' = {v1[:60]}, q_table2' = {v2[:60]}", "each step must update exactly one of the two tables", where)
+            continue
+        new, own, other = (v1, "Q1", "Q2") if ch1 else (v2, "Q2", "Q1")
+        a = nfp.meta.get(new, {})
+        isup = new.startswith("_dql_update(") or new.startswith(uq + "(") or a.get("fn", "").endswith("_dql_update")
+        if not isup:
+            raise AnalysisError(f"{tq}: new table value `{new[:80]}` is not a _dql_update(...) result (unrecognised idiom)")
+        args = [x.canon() for x in a.get("args", [])]
+        kws = {k: v.canon() for k, v in a.get("kws", {}).items()}
+        bound = dict(zip(up, args))
+        bound.update(kws)
+        ok = bound.get(up[1]) == own and bound.get(up[2]) == other
+        updated.add(own)
+        ck.ob("R2-co-indexing", tq, f"tables:{'q_table1' if ch1 else 'q_table2'}", ok, f"{'q_table1' if ch1 else 'q_table2'}' = _dql_update(.., {bound.get(up[1])}, {bound.get(up[2])}, ..)",
+              "" if ok else "the table that receives the result must be the first table argument (selection / update) and the evaluation table the other one", where)
+    ck.ob("R2-co-indexing", tq, "two-call-sites", updated == {"Q1", "Q2"}, f"tables updated on some path: {sorted(updated)}", "" if updated == {"Q1", "Q2"} else "double Q-learning must update either table (each on some path)", loc(mi, fn))
 
 
 def _monte_carlo(ck, repo, nf):
